@@ -1,3 +1,4 @@
+mod auth;
 mod codec;
 mod distro;
 mod sequence;
@@ -11,6 +12,7 @@ fn main() {
     match model {
         "codec" => codec::run(),
         "distro" => distro::run(),
+        "openapi" | "console" | "perm" => auth::run(model),
         "sequence" => sequence::run(),
         _ => {
             eprintln!("usage: harness <model>   (ops on stdin, one answer line per op on stdout)");
